@@ -29,8 +29,9 @@ def _find_shapes(states=SELF_STATES, operands=(('obj', 'Bits', 'immutable'), ('s
                         def real(vals, cls=cls, st=st, k=k, d=d, ba=ba):
                             o = r_bits(vals, 'self', cls, st)
                             return [o, r_operand(vals, 'bs', k, o), rv(vals, 'start', d['start']), rv(vals, 'end', d['end']), ba], {}
+                        aligned = bool(ba) or (ba is None and optba)
                         out.append(Shape(f'{cls}/{st}/{opname(k)}/{cname(d)}/ba={ba}/opt={optba}', build, real,
-                                         opts={'bytealigned': optba}))
+                                         opts={'bytealigned': optba}, props={'C07'} if aligned else None))
     return out
 
 
@@ -81,11 +82,11 @@ def find_post(first):
     return post
 
 
-contract('bits.Bits.find', shapes=_find_shapes([s for s in SELF_STATES if s[0] in ('Bits', 'BitArray')]), props={'C07', 'C08'},
+contract('bits.Bits.find', shapes=_find_shapes([s for s in SELF_STATES if s[0] in ('Bits', 'BitArray')]), props={'C07'},
          kind='public', relational=True, observe_args=False,
          note="find: () iff no occurrence lies wholly inside [start, end) (on a byte boundary when byte-aligned), else the "
               "lowest such position; ValueError for an empty pattern or an invalid range")(find_post(True))
-contract('bits.Bits.rfind', shapes=_find_shapes([s for s in SELF_STATES if s[0] in ('Bits', 'BitArray')]), props={'C07', 'C08'},
+contract('bits.Bits.rfind', shapes=_find_shapes([s for s in SELF_STATES if s[0] in ('Bits', 'BitArray')]), props={'C07'},
          kind='public', relational=True, observe_args=False,
          note="rfind: as find, the highest position")(find_post(False))
 contract('bitstream.ConstBitStream.find', shapes=_find_shapes([s for s in SELF_STATES if s[0] in ('ConstBitStream', 'BitStream')]),
